@@ -1391,6 +1391,242 @@ def run_boundaries(ctx, cs0, ref):
         dict(cs.items())[n].revertToDefault()
 
 
+# --------------------------------------------------------------------------- option lists filled at run time (plugins)
+def option_near_misses(opts, rng):
+    """Values just outside an option list: case changes, blanks, truncations, extensions, other types."""
+    out = []
+    for o in opts:
+        if isinstance(o, str):
+            out += [o.upper(), o.lower(), o.swapcase(), o + " ", " " + o, o[:-1], o + "x", o.replace("_", "-"), o.capitalize()]
+        elif isinstance(o, (int, float)) and not isinstance(o, bool):
+            out += [o + 1, o - 1, str(o)]
+    out += ["", "notAnOption", "DIF3D ", "MCNP_slab", None, 3]
+    seen, uniq = set(), []
+    for v in out:
+        k = (type(v).__name__, repr(v))
+        if k not in seen and v not in opts:
+            seen.add(k)
+            uniq.append(v)
+    return uniq
+
+
+def run_options(ctx, cs0, ref):
+    """Settings with option lists, extended at run time.
+    A (function level): fresh Setting objects (every registry setting that has options, plus generated ones: enforced / not,
+       starting EMPTY / non-empty) receive `setting.Option`s once and repeatedly; after every addition the accept / reject
+       table (legal options, added options, near-misses) is re-run against the CURRENT list: an options-enforcing setting
+       accepts exactly its current non-empty list; a refused value leaves the previous value; an accepted one dumps and
+       re-validates to itself.  Model: optSchema / addOptions (Lean), same table.
+    B (plugin route): a plugin registered with the application contributes options to `neutronicsKernel` (defined with an
+       empty list) and defines settings of its own with options; Settings() built afterwards must reject near-misses on
+       assignment, in modified() and when read from a file (previous value kept) and round-trip the legal options."""
+    import voluptuous as vol
+    from armi import getPluginManagerOrFail, plugins, settings
+    from armi.settings import setting as S
+    rng = ctx.rng
+    I = Interner()
+    req, exp, cases = [], [], []
+    pool = ["MCNP", "MCNP_Slab", "DIF3D", "DIF3D-Nodal", "VARIANT", "dragon", "Kernel 2", "x", "A_b", "serpent2"]
+
+    def fresh_setting(name, default, options, enforced):
+        return S.Setting(name, default=default, description="generated for the option stream", options=list(options), enforcedOptions=enforced)
+
+    def table(st, tag, prev_pool):
+        """accept / reject of every candidate against the CURRENT option list of st"""
+        cur = list(st.options)
+        enforced = bool(st.enforcedOptions)
+        cands = list(cur) + option_near_misses(cur or pool[:2], rng)
+        for raw in cands:
+            prev = rng.choice(prev_pool) if prev_pool else None
+            if prev is not None:
+                try:
+                    st.setValue(copy.deepcopy(prev))
+                except Exception:
+                    prev = None
+            before = canon(st.value)
+            try:
+                fb = vol.Schema(vol.Coerce(type(st.default)))(copy.deepcopy(raw))
+                fbt = str(I(fb))
+            except Exception:
+                fbt = "x"
+            want = (raw in cur) if (enforced and cur) else (fbt != "x")
+            try:
+                st.setValue(copy.deepcopy(raw))
+                acc = True
+            except Exception:
+                acc = False
+            case = {"setting": st.name, "options now": [repr(o) for o in cur][:12], "enforced": enforced, "raw": repr(raw), "stage": tag,
+                    "previous": repr(prev)}
+            if acc != want:
+                ctx.fail("option-outside-list-accepted" if acc else "legal-option-rejected",
+                         "values outside a setting's (current, possibly plugin-extended) option list are rejected, its options are accepted",
+                         case, observed="accepted" if acc else "rejected", expected="accepted" if want else "rejected")
+            if not acc and canon(st.value) != before:
+                ctx.fail("assign-invalid-changes-state", "a refused value leaves the previous value in place", case, observed=repr(st.value)[:80])
+            if acc:
+                ok2, v2 = schema_of(st, yaml_roundtrip(plain(st.dump())))
+                if not ok2 or canon(v2) != canon(st.value):
+                    ctx.fail(f"accepted-value-violates-own-schema:{st.name}", "the value a setting holds satisfies the setting's own schema", case,
+                             observed="refused" if not ok2 else repr(v2)[:80])
+            req.append(f"optsch {'T' if enforced else 'F'} [{','.join(str(I(o)) for o in cur)}] {I(raw)} {fbt}")
+            exp.append(str(I(st.value)) if acc else "x")
+            cases.append(case)
+            ctx.count(f"option table entries ({'enforced' if enforced else 'not enforced'}, {'empty list' if not cur else 'non-empty list'}): "
+                      f"{'accepted' if acc else 'refused'}")
+            ctx.case(("opt", st.name, tag, tuple(repr(o) for o in cur), repr(raw)), nontrivial=True)
+
+    # ---- A: function level
+    specs = []
+    for n, s_ in ref.items():
+        if s_.options is not None and s_._customSchema is None and isinstance(s_.default, (str, int, float)) and not isinstance(s_.default, bool):
+            specs.append((n, s_.default, list(s_.options), bool(s_.enforcedOptions)))
+    for k in range(ctx.pick(6, 40)):
+        start = rng.sample(pool, rng.choice([0, 0, 1, 3]))
+        specs.append((f"genOpt{k}", rng.choice(["", start[0] if start else "", "zz"]), start, rng.random() < 0.75))
+    specs.append(("genKernel", "", [], True))            # the shape of neutronicsKernel, always present
+    ctx.count("settings with option lists (registry)", len([x for x in specs if not x[0].startswith("gen")]))
+    for name, default, options, enforced in specs:
+        st = fresh_setting(name, default, options, enforced)
+        str_pool = [o for o in pool if o not in options]
+        table(st, "as defined", [])
+        rounds = rng.choice([1, 2, 3])
+        for r in range(rounds):
+            if options and not isinstance(options[0], str):
+                new = [max(options) + 10 * (r + 1) + j for j in range(rng.randint(1, 2))]
+            else:
+                new = [str_pool.pop(rng.randrange(len(str_pool))) for _ in range(min(len(str_pool), rng.randint(1, 3)))]
+            if not new:
+                break
+            legal_before = [o for o in st.options] if (st.enforcedOptions and st.options) else []
+            if rng.random() < 0.5:
+                st.addOptions([S.Option(o, name) for o in new])
+            else:
+                for o in new:
+                    st.addOption(S.Option(o, name))
+            if list(st.options)[-len(new):] != new:
+                ctx.fail("options-not-extended", "added options join the setting's option list", {"setting": name, "added": new}, observed=list(st.options)[-6:])
+            table(st, f"after addition {r + 1} of {new}", legal_before + new)
+            ctx.count(f"option additions (to {'an empty' if len(st.options) == len(new) else 'a non-empty'} list)")
+    out = lean_run("Settings", ["new"] + req)[1:]
+    for r_, e_, c_, o_ in zip(req, exp, cases, out):
+        if o_ == "bad-op":
+            raise common.Infra(f"Settings driver: bad-op for {r_}")
+        if o_ != e_:
+            ctx.disagree("Settings model (optSchema on the current option list) vs Setting.setValue after addOptions", {"request": r_, "case": c_}, o_, e_)
+    ctx.count("model lines (option lists)", len(req))
+
+    # ---- B: through a plugin registered with the application
+    KERNEL = "neutronicsKernel"
+    kopts = rng.sample(["MCNP", "MCNP_Slab", "DIF3D", "DIF3D-Nodal", "VARIANT"], rng.randint(2, 4))
+    more = [o for o in ["dragon", "serpent2", "Kernel 2"] if rng.random() < 0.7] or ["dragon"]
+
+    class C17OptionsPluginA(plugins.ArmiPlugin):
+        @staticmethod
+        @plugins.HOOKIMPL
+        def defineSettings():
+            return [S.Option(o, KERNEL) for o in kopts] + [
+                S.Setting("c17PlugEmpty", default="", description="generated", options=[], enforcedOptions=True),
+                S.Setting("c17PlugSome", default="one", description="generated", options=["one", "two"], enforcedOptions=True),
+                S.Setting("c17PlugFree", default="one", description="generated", options=["one", "two"], enforcedOptions=False),
+                S.Option("alpha", "c17PlugEmpty"), S.Option("Beta_2", "c17PlugEmpty"), S.Option("three", "c17PlugSome"),
+                S.Option("three", "c17PlugFree")]
+
+    class C17OptionsPluginB(plugins.ArmiPlugin):
+        @staticmethod
+        @plugins.HOOKIMPL
+        def defineSettings():
+            return [S.Option(o, KERNEL) for o in more] + [S.Option("gamma", "c17PlugEmpty"), S.Option("four", "c17PlugSome")]
+
+    pm = getPluginManagerOrFail()
+    registered = []
+    try:
+        for stage, plug in (("one plugin", C17OptionsPluginA), ("two plugins", C17OptionsPluginB)):
+            pm.register(plug)
+            registered.append(plug)
+            expect = {KERNEL: (True, kopts + (more if stage == "two plugins" else [])),
+                      "c17PlugEmpty": (True, ["alpha", "Beta_2"] + (["gamma"] if stage == "two plugins" else [])),
+                      "c17PlugSome": (True, ["one", "two", "three"] + (["four"] if stage == "two plugins" else [])),
+                      "c17PlugFree": (False, ["one", "two", "three"])}
+            cs = settings.Settings()
+            for n, (enforced, opts) in expect.items():
+                have = list(dict(cs.items())[n].options)
+                if sorted(have) != sorted(opts):
+                    ctx.fail("plugin-options-not-applied", "options contributed by plugins join the setting's option list", {"setting": n, "stage": stage},
+                             observed=have, expected=opts)
+                    continue
+                cands = list(opts) + option_near_misses(opts, rng)
+                for raw in cands:
+                    if not isinstance(raw, str):
+                        continue
+                    want = (raw in opts) if enforced else True
+                    prev = rng.choice(opts)
+                    case = {"setting": n, "stage": stage, "options": opts, "raw": repr(raw), "previous": prev}
+                    for route in ("assign", "modified", "read"):
+                        obj = settings.Settings()
+                        obj[n] = prev
+                        before = state_map(obj)
+                        held = None
+                        try:
+                            if route == "assign":
+                                obj[n] = raw
+                                held = obj
+                            elif route == "modified":
+                                held = obj.modified(newSettings={n: raw})
+                            else:
+                                obj.loadFromString(yaml_text({n: raw}), handleInvalids=False)
+                                held = obj
+                            acc = True
+                        except Exception:
+                            acc = False
+                        if acc != want:
+                            ctx.fail(f"option-outside-list-accepted:{route}" if acc else f"legal-option-rejected:{route}",
+                                     "values outside a setting's plugin-extended option list are rejected (assignment, modified(), file), its "
+                                     "options are accepted", {**case, "route": route}, observed="accepted" if acc else "rejected")
+                        if (not acc or route == "modified") and state_map(obj) != before:
+                            ctx.fail("assign-invalid-changes-state" if route != "read" else "read-invalid-changes-value",
+                                     "a refused value leaves the previous value in place", {**case, "route": route},
+                                     observed=repr(obj[n]))
+                        if acc and want and held is not None:
+                            if held[n] != raw:
+                                ctx.fail("assign-valid-not-stored", "an accepted value is stored", {**case, "route": route}, observed=repr(held[n]))
+                            buf = io.StringIO()
+                            held.writeToYamlStream(buf, style=rng.choice(["short", "medium"]))
+                            back = settings.Settings()
+                            try:
+                                back.loadFromString(buf.getvalue(), handleInvalids=False)
+                                if back[n] != raw:
+                                    ctx.fail(f"roundtrip-value-differs:short:{n}", "legal plugin options survive a write/read cycle",
+                                             {**case, "route": route}, observed=repr(back[n]))
+                            except Exception as e:
+                                ctx.fail(f"roundtrip-read-raises:{n}", "a written settings file reads back", {**case, "route": route},
+                                         observed=f"{type(e).__name__}: {e}"[:200])
+                        ctx.count(f"plugin option values ({route}): {'accepted' if acc else 'refused'}")
+                    ctx.case(("plugopt", stage, n, repr(raw)), nontrivial=True,
+                             sample=case if len(ctx.samples) < 10 and not want and n == KERNEL else None)
+        # excluded point: with a kernel plugin registered the DEFAULT '' of neutronicsKernel is outside its (now non-empty,
+        # enforced) option list, so an all-default Settings() written in the full style cannot be read back
+        cs = settings.Settings()
+        buf = io.StringIO()
+        cs.writeToYamlStream(buf, style="full")
+        doc = parse_doc(buf.getvalue())
+        try:
+            settings.Settings().loadFromString(yaml_text({KERNEL: doc[KERNEL]}), handleInvalids=False)
+        except Exception as e:
+            ctx.fail("roundtrip-read-raises:neutronicsKernel:default-outside-plugin-options", "settings left at default stay at default "
+                     "(full style) when a plugin has contributed options", {"setting": KERNEL, "default": repr(doc[KERNEL]), "options": kopts + more},
+                     observed=f"{type(e).__name__}: {e}"[:200])
+        ctx.case(("plugopt-default-full", tuple(kopts + more)), nontrivial=True)
+    finally:
+        for plug in registered:
+            try:
+                pm.unregister(plug)
+            except Exception:
+                pass
+    left = [n for n, _ in settings.Settings().items() if n.startswith("c17Plug")]
+    if left or list(dict(settings.Settings().items())[KERNEL].options):
+        raise common.Infra("the option-stream plugins could not be unregistered")
+
+
 # --------------------------------------------------------------------------- write the COPY
 def at_default_check(ctx, cs, case, who):
     """`Setting.isDefault()` / `offDefault` must be the comparison of value and default, on every object."""
@@ -2037,6 +2273,7 @@ def run(ctx):
         hypothesis_evidence(ctx, registry)
         run_reader(ctx, cs0, ref)
         run_modified(ctx, cs0, ref)
+        run_options(ctx, cs0, ref)
         run_copies(ctx, cs0, ref)
         run_boundaries(ctx, cs0, ref)
         run_objects(ctx, ref)
